@@ -163,6 +163,17 @@ Theorem C10_rediscovery_keeps :
 Proof. exact insert_all_rediscovery. Qed.
 Print Assumptions C10_rediscovery_keeps.
 
+(* ... and more generally: as long as the additions fit under the bound, offering any addresses
+   (new ones, known ones, in any order) never changes a recorded score - a dial failure or success
+   is not erased by later rediscovery. (At the bound a record can only disappear as the reported
+   minimal victim: C10_insert_frame, C10_evict_min.) *)
+Theorem C10_additions_keep_scores :
+  forall k s l vs b z,
+  NoDup (keys s) -> (length s + length l <= cap k)%nat -> find b s = Some z ->
+  find b (fst (insert_all k s l vs)) = Some z /\ snd (insert_all k s l vs) = false.
+Proof. exact insert_all_keeps_scores. Qed.
+Print Assumptions C10_additions_keep_scores.
+
 (* Dial order: addresses(limit) has min(limit, |store|) entries of the store in non-increasing
    score order, and no address left out scores higher than one that was taken. *)
 Theorem C10_dial_order :
@@ -341,6 +352,38 @@ Theorem C10_established_step :
   lst st' = lst st /\ held st' = held st /\ pubs st' = pubs st.
 Proof. exact step_established_known. Qed.
 Print Assumptions C10_established_step.
+
+(* dial_address end to end on an address that is already stored: the stored record is kept
+   (score 0 is a rediscovery) and the result of the dial - a DialFailure of any kind or the
+   established connection - re-scores exactly it. *)
+Theorem C10_dial_address_known_step :
+  forall c k st a res vs t q z0,
+  dial_addr_check c st a = DAOk t q -> find a (get_or_empty q (bk st)) = Some z0 ->
+  let sc := match res with Some e => error_score k e | None => sc_established k end in
+  sc <> 0%Z ->
+  let s := get_or_empty q (bk st) in
+  let st' := fst (step c k st (ODialAddr a res vs)) in
+  (exists s', get q (bk st') = Some s' /\ find a s' = Some sc /\ keys s' = keys s /\
+              forall b, b <> a -> find b s' = find b s) /\
+  (forall p, p <> q -> get p (bk st') = get p (bk st)) /\
+  lst st' = lst st /\ held st' = held st /\ pubs st' = pubs st.
+Proof. exact step_dial_addr_known. Qed.
+Print Assumptions C10_dial_address_known_step.
+
+(* ... and on a new address while there is room: it is remembered with the score of the result. *)
+Theorem C10_dial_address_new_step :
+  forall c k st a res vs t q,
+  dial_addr_check c st a = DAOk t q -> find a (get_or_empty q (bk st)) = None ->
+  (length (get_or_empty q (bk st)) < cap k)%nat ->
+  let sc := match res with Some e => error_score k e | None => sc_established k end in
+  sc <> 0%Z ->
+  let s := get_or_empty q (bk st) in
+  let st' := fst (step c k st (ODialAddr a res vs)) in
+  (exists s', get q (bk st') = Some s' /\ find a s' = Some sc /\ keys s' = keys s ++ [a] /\
+              forall b, b <> a -> find b s' = find b s) /\
+  (forall p, p <> q -> get p (bk st') = get p (bk st)).
+Proof. exact step_dial_addr_new. Qed.
+Print Assumptions C10_dial_address_new_step.
 
 (* i32: the public-address bonus saturates at both ends ... *)
 Theorem C10_saturation :
